@@ -36,7 +36,7 @@ var containers = map[string]int{
 	"avc1": 78, "avc3": 78, "hvc1": 78, "hev1": 78, "encv": 78, "av01": 78, "vvc1": 78, "vvi1": 78, "vp08": 78, "vp09": 78, "avs3": 78,
 	"mp4a": 28, "enca": 28, "ac-3": 28, "ec-3": 28, "ac-4": 28, "Opus": 28, "mha1": 28, "mhm1": 28,
 	"wvtt": 8, "stpp": -1, "evte": 8,
-	"\xa9too": 0, "\xa9nam": 0, "\xa9ART": 0, "\xa9cpy": 0,
+	"\xa9too": 0, "\xa9nam": 0, "\xa9ART": 0, "\xa9cpy": 0, "desc": 0, "vttc": 0,
 }
 
 // IsContainer reports whether the walker descends into boxes of this type.
@@ -89,6 +89,9 @@ func Walk(data []byte, start, end, depth int) ([]*Box, error) {
 					p++
 				}
 				skip = p - b.PayloadStart()
+			}
+			if b.Type == "meta" && b.PayloadStart()+8 <= b.End() && string(data[b.PayloadStart()+4:b.PayloadStart()+8]) == "hdlr" {
+				skip = 0 // QuickTime style meta: no version/flags, the first child (hdlr) follows the header
 			}
 			if b.PayloadStart()+skip <= b.End() {
 				b.Skip = skip
